@@ -34,6 +34,8 @@ def run(ck):
         g["calls"] = [pcall(a, "list") for a in PACKERS]
         g["watchdog"] = 20
         groups.append(g)
+    for g in gen.long_families(ck.rng, 40 if q else 2000):                       # 65-260 items: code paths chosen by input size (fit heuristics only)
+        g = dict(g); g["orc"] = 0; g["calls"] = [pcall(a, "list") for a in FIT4]; groups.append(g); ck.cat("long_sequences")
     for g in gen.gscale_families(ck.rng, 100 if q else 3000, cover=False):      # magnitudes around 2^31 (values <= 21 times a common factor of about 1e8)
         g = dict(g); g["orc"] = 0; g.pop("fmts")
         g["calls"] = [pcall(a, "list") for a in PACKERS]
